@@ -14,8 +14,18 @@ import (
 	"sync"
 
 	"github.com/grailbio/bigslice"
+	"github.com/grailbio/bigslice/metrics"
 	"github.com/grailbio/bigslice/sliceio"
 )
+
+// UserCalls counts invocations of map/filter/flatmap user functions in the
+// scope of the task running them (observed through Result.Scope, C04/C20).
+var UserCalls = metrics.NewCounter()
+
+func countCall(ctxv reflect.Value) {
+	defer func() { recover() }() // a context without scope (never the case inside a task) is not an error here
+	UserCalls.Incr(metrics.ContextScope(ctxv.Interface().(context.Context)), 1)
+}
 
 // ---------------------------------------------------------------- cells
 
@@ -27,6 +37,7 @@ var (
 	tBool   = reflect.TypeOf(true)
 	tErr    = reflect.TypeOf((*error)(nil)).Elem()
 	tWState = reflect.TypeOf((*wstate)(nil))
+	tCtx    = reflect.TypeOf((*context.Context)(nil)).Elem()
 )
 
 type wstate struct {
@@ -380,8 +391,10 @@ func buildNode(p Prog, schemas []Schema, built []bigslice.Slice, k int, env Env)
 		})
 	case "map":
 		is := ins(0)
-		ft := reflect.FuncOf(goTypes(is.Types), goTypes(schemas[k].Types), false)
+		ft := reflect.FuncOf(append([]reflect.Type{tCtx}, goTypes(is.Types)...), goTypes(schemas[k].Types), false)
 		fn := reflect.MakeFunc(ft, func(args []reflect.Value) []reflect.Value {
+			countCall(args[0])
+			args = args[1:]
 			c := rec.count(k, -1)
 			if trip(n.Fail, env.Run, k, -1, c) {
 				panicOrErr(n.Fail, env.Run, k)
@@ -395,8 +408,10 @@ func buildNode(p Prog, schemas []Schema, built []bigslice.Slice, k int, env Env)
 		return bigslice.Map(in(0), fn.Interface(), prags(n)...)
 	case "filter":
 		is := ins(0)
-		ft := reflect.FuncOf(goTypes(is.Types), []reflect.Type{tBool}, false)
+		ft := reflect.FuncOf(append([]reflect.Type{tCtx}, goTypes(is.Types)...), []reflect.Type{tBool}, false)
 		fn := reflect.MakeFunc(ft, func(args []reflect.Value) []reflect.Value {
+			countCall(args[0])
+			args = args[1:]
 			c := rec.count(k, -1)
 			if trip(n.Fail, env.Run, k, -1, c) {
 				panicOrErr(n.Fail, env.Run, k)
@@ -410,8 +425,10 @@ func buildNode(p Prog, schemas []Schema, built []bigslice.Slice, k int, env Env)
 		for i, c := range schemas[k].Types {
 			outT[i] = reflect.SliceOf(goType(c))
 		}
-		ft := reflect.FuncOf(goTypes(is.Types), outT, false)
+		ft := reflect.FuncOf(append([]reflect.Type{tCtx}, goTypes(is.Types)...), outT, false)
 		fn := reflect.MakeFunc(ft, func(args []reflect.Value) []reflect.Value {
+			countCall(args[0])
+			args = args[1:]
 			c := rec.count(k, -1)
 			if trip(n.Fail, env.Run, k, -1, c) {
 				panicOrErr(n.Fail, env.Run, k)
